@@ -1,5 +1,6 @@
 import Genshi.Wire
 import Genshi.Model.Escape
+import Genshi.Model.MarkupOps
 namespace Driver.C18
 open Genshi Genshi.Escape Genshi.Sexp
 
@@ -25,6 +26,127 @@ def pair? : Sexp → Option (List Char × Option (List Char))
   | _ => none
 
 def attrsOut (a : Attrs) : Sexp := .list (a.map fun (n, v) => .list [.str n, .str v])
+
+
+/-! ### wave 4: the wider algebra (`Genshi.MarkupOps`) -/
+def arg? : Sexp → Option MarkupOps.Arg
+  | .list [.atom "p", .str s] => some (.str s)
+  | .list [.atom "m", .str s] => some (.markup s)
+  | .list [.atom "ms", .str s] => some (.msub s)
+  | .list [.atom "h", .str s] => some (.html s)
+  | .list [.atom "i", n] => n.toInt?.map .int
+  | .atom "N" => some .none
+  | _ => none
+
+def impl? : Sexp → Option MarkupOps.Impl
+  | .atom "c" => some .c
+  | .atom "py" => some .py
+  | _ => none
+
+def tyAtom : MarkupOps.Ty → Sexp
+  | .str => .atom "U"
+  | .markup => .atom "M"
+  | .msub => .atom "MS"
+
+def errAtom : MarkupOps.PyErr → Sexp
+  | .attributeError => .atom "AttributeError"
+  | .typeError => .atom "TypeError"
+  | .keyError => .atom "KeyError"
+  | .indexError => .atom "IndexError"
+
+def tres : Except MarkupOps.PyErr (MarkupOps.Ty × List Char) → Sexp
+  | .ok (t, s) => .list [.atom "ok", tyAtom t, .str s]
+  | .error e => .list [.atom "err", errAtom e]
+
+def fres : Except MarkupOps.FmtErr (MarkupOps.Ty × List Char) → Sexp
+  | .ok (t, s) => .list [.atom "ok", tyAtom t, .str s]
+  | .error .unsupported => .atom "unmodelled"
+  | .error (.raised e) => .list [.atom "err", errAtom e]
+
+def sres : Except San.Err (List Char) → Sexp
+  | .ok s => .list [.atom "ok", .str s]
+  | .error .valueError => .list [.atom "err", .atom "ValueError"]
+  | .error .overflowError => .list [.atom "err", .atom "OverflowError"]
+
+def optInt? : Sexp → Option (Option Int)
+  | .atom "N" => some none
+  | x => x.toInt?.map some
+
+def attrs? (xs : List Sexp) : Option Attrs :=
+  xs.mapM fun
+    | .list [.str n, .str v] => some (n, v)
+    | _ => none
+
+def qnOut (q : MarkupOps.QN) : Sexp :=
+  .list [.str q.text, (match q.ns with | some n => .str n | none => .atom "N"), .str q.loc]
+
+def handle2 : List Sexp → Option Sexp
+  | [.atom "esc2", i, q, a] => do
+      let i ← impl? i; let q ← q.toBool?; let a ← arg? a
+      pure (tres (MarkupOps.escapeCls i (MarkupOps.escOf i) q a))
+  | [.atom "escc", q, .str s] => do
+      let q ← q.toBool?; pure (.str (MarkupOps.escapeC q s))
+  | [.atom "add2", i, .str self, a] => do
+      let i ← impl? i; let a ← arg? a
+      pure (tres (MarkupOps.add i (MarkupOps.escOf i) self a))
+  | [.atom "radd2", i, .str self, a] => do
+      let i ← impl? i; let a ← arg? a
+      pure (tres (MarkupOps.radd i (MarkupOps.escOf i) self a))
+  | [.atom "mul2", .str self, a] => do
+      let a ← arg? a; pure (tres (MarkupOps.mul self a))
+  | [.atom "join2", i, .str sep, q, .list xs] => do
+      let i ← impl? i; let q ← q.toBool?; let xs ← xs.mapM arg?
+      pure (tres (MarkupOps.join i (MarkupOps.escOf i) sep q xs))
+  | [.atom "mod2", i, .str fmt, .list [.atom "one", a]] => do
+      let i ← impl? i; let a ← arg? a
+      pure (fres (MarkupOps.mod i (MarkupOps.escOf i) fmt (.one a)))
+  | [.atom "mod2", i, .str fmt, .list (.atom "tup" :: xs)] => do
+      let i ← impl? i; let xs ← xs.mapM arg?
+      pure (fres (MarkupOps.mod i (MarkupOps.escOf i) fmt (.tup xs)))
+  | [.atom "mod2", i, .str fmt, .list (.atom "map" :: kvs)] => do
+      let i ← impl? i
+      let kvs ← kvs.mapM fun
+        | .list [.str k, a] => do let a ← arg? a; pure (k, a)
+        | _ => none
+      pure (fres (MarkupOps.mod i (MarkupOps.escOf i) fmt (.map kvs)))
+  | [.atom "repr", .str s] =>
+      some (if MarkupOps.reprModelled s then .str (MarkupOps.markupRepr s) else .atom "unmodelled")
+  | [.atom "unescm", .str s] =>
+      let r := MarkupOps.unescapeM s
+      some (.list [.atom "ok", tyAtom r.1, .str r.2])
+  | [.atom "unescfn", a] => do
+      let a ← arg? a
+      match MarkupOps.unescapeFn a with
+      | some r => pure (.list [.atom "ok", tyAtom r.1, .str r.2])
+      | none => pure (.atom "unmodelled")
+  | [.atom "ent_strip", k, .str s] => do
+      let k ← k.toBool?; pure (sres (MarkupOps.stripentities k s))
+  | [.atom "tag_strip", .str s] => some (.str (MarkupOps.striptags s))
+  | [.atom "plaintext", k, .str s] => do
+      let k ← k.toBool?; pure (sres (MarkupOps.plaintext k s))
+  | [.atom "attrs_has", .list a, .str n] => do
+      let a ← attrs? a; pure (ofBool (Attrs.has a n))
+  | [.atom "attrs_get", .list a, .str n] => do
+      let a ← attrs? a
+      pure (match Attrs.get a n with | some v => .str v | none => .atom "N")
+  | [.atom "attrs_idx", .list a, i] => do
+      let a ← attrs? a; let i ← i.toInt?
+      pure (match MarkupOps.attrsIndex a i with
+        | .ok (n, v) => .list [.atom "ok", .str n, .str v]
+        | .error e => .list [.atom "err", errAtom e])
+  | [.atom "attrs_slice", .list a, i, j] => do
+      let a ← attrs? a; let i ← optInt? i; let j ← optInt? j
+      pure (attrsOut (MarkupOps.attrsSlice a i j))
+  | [.atom "attrs_substr", .list a, .str n] => do
+      let a ← attrs? a; pure (attrsOut (MarkupOps.attrsSubStr a n))
+  | [.atom "attrs_totuple", .list a] => do
+      let a ← attrs? a; pure (.str (MarkupOps.attrsTotuple a))
+  | [.atom "qname", .str s] => some (qnOut (MarkupOps.qnameNew s))
+  | [.atom "qname_args", .str s] => some (.str (MarkupOps.qnameNewArgs (MarkupOps.qnameNew s)))
+  | [.atom "ns_get", .str uri, .str name] => some (qnOut (MarkupOps.nsGetItem uri name))
+  | [.atom "ns_contains", .str uri, .str s] => some (ofBool (MarkupOps.nsContains uri (MarkupOps.qnameNew s)))
+  | [.atom "ns_eq", .str uri, .str o] => some (ofBool (MarkupOps.nsEq uri o))
+  | _ => none
 
 def handle : List Sexp → Option Sexp
   | [.atom "esc", .atom "py", q, .str s] => do
@@ -62,6 +184,6 @@ def handle : List Sexp → Option Sexp
         | _ => none
       let names ← names.mapM Sexp.toStr?
       pure (attrsOut (Attrs.sub self names))
-  | _ => none
+  | xs => handle2 xs
 
 end Driver.C18
